@@ -124,6 +124,15 @@ int main(int argc, char** argv) {
             if (f) { for (int i = 0; i < POLYSEED_LANG_SIZE; ++i) fprintf(f, "%d\t%s\n", i, l->words[i]); fclose(f); }
         }
 
+        /* ---- T.wordlen: every list element fits the element object of the comparer proofs (units U.cmpf.*) ---- */
+        {
+            int cap = l->has_accents ? 16 : 64;   /* CMP_EOBJ of the unit that proves this language's comparer */
+            int ok = 1, mx = 0; char d[600];
+            for (int i = 0; i < POLYSEED_LANG_SIZE; ++i) { int n = (int)strlen(l->words[i]) + 1; if (n > mx) mx = n; if (n > cap) ok = 0; }
+            snprintf(d, sizeof d, "longest word with terminator %d bytes, element object of the comparer proof %d bytes", mx, cap);
+            emit("wordlen", sn, ok, POLYSEED_LANG_SIZE, d);
+        }
+
         /* ---- T1 sorted ------------------------------------------------------------------- */
         if (l->is_sorted) {
             int ok = 1; char d[600] = "strictly increasing under the language's comparer";
